@@ -30,6 +30,7 @@ type report struct {
 	Seed     int64          `json:"seed"`
 	Cases    int            `json:"cases"`
 	Classes  map[string]int `json:"classes"`
+	Decided  map[string]int `json:"oracle_outcomes"`
 	BySig    map[string]int `json:"findings_by_signature"`
 	Findings []finding      `json:"findings"`
 	WallS    float64        `json:"wall_s"`
@@ -209,7 +210,7 @@ func main() {
 	dir := flag.String("dir", os.Getenv("RLV_SCRATCH"), "scratch directory")
 	flag.Parse()
 	t0 := time.Now()
-	rep = report{Prop: *prop, Seed: *seed, Classes: map[string]int{}, BySig: map[string]int{}}
+	rep = report{Prop: *prop, Seed: *seed, Classes: map[string]int{}, BySig: map[string]int{}, Decided: map[string]int{}}
 	r := rand.New(rand.NewSource(*seed))
 	switch *prop {
 	case "C19":
@@ -217,6 +218,8 @@ func main() {
 		c19dumps(r, *n/50+20, *dir)
 	case "C12":
 		c12(r, *n)
+	case "C13":
+		c13(r, *n)
 	default:
 		fmt.Fprintln(os.Stderr, "have: C12 C19")
 		os.Exit(2)
